@@ -49,7 +49,7 @@ use coupe::Partition as _;
 use std::collections::HashMap;
 use std::sync::Mutex;
 
-const HANG_SECS: u64 = 20;
+const HANG_SECS: u64 = 60;
 /// after this many watchdog expiries of one algorithm the remaining runs of it are not started
 /// (every hang leaves a spinning thread behind)
 const HANG_LIMIT: u32 = 4;
